@@ -341,6 +341,217 @@ func TestC14Mutants(t *testing.T) {
 	})
 }
 
+// TestC14Forms: families of faults that the generating AST cannot express,
+// drawn as text - the fault sits in a later subscript of a cascade, an
+// aggregate function is reached where none may stand (inside the argument of
+// another aggregate, through GROUP BY, in WHERE / DELETE / PUT / REMOVE;
+// directly, below scalar calls or through a chain of names), a subscript
+// follows an element of a list, a list or JSON value stands beside an
+// aggregate. Each must be refused with zero storage calls - and the same text
+// with the fault taken out must be accepted, so that no form is refused for a
+// reason other than its fault.
+func TestC14Forms(t *testing.T) {
+	pairs := []lib.Pair{{K: "a", V: `{"a": {"b": ["x", "y"]}}`}, {K: "ab", V: "1,2"}, {K: "b", V: "3"}}
+	rapid.Check(t, func(rt *rapid.T) {
+		pick := func(label string, xs ...string) string { return rapid.SampledFrom(xs).Draw(rt, label) }
+		family := rapid.IntRange(0, 5).Draw(rt, "family")
+		if f := os.Getenv("VERIF_C14_FAMILY"); f != "" { // maintenance: one family only
+			family = int(f[0] - '0')
+		}
+		aggr := pick("aggr", "count(1)", "sum(strlen(key))", "max(int(value))", "avg(strlen(value))", "group_concat(key, ',')", "json_arrayagg(key)", "min(strlen(key))")
+		// wrappers: 0..2 scalar calls that keep a number or text a number or text
+		var wraps [3][]int
+		for w := range wraps {
+			for i := rapid.IntRange(0, 2).Draw(rt, "wraps"); i > 0; i-- {
+				wraps[w] = append(wraps[w], rapid.IntRange(0, 4).Draw(rt, "wrap"))
+			}
+		}
+		wrap := func(w int, x string) string {
+			for _, k := range wraps[w] {
+				switch k {
+				case 0:
+					x = "str(" + x + ")"
+				case 1:
+					x = "strlen(str(" + x + "))"
+				case 2:
+					x = "join(',', " + x + ", 'z')"
+				case 3:
+					x = "list(" + x + ", 1)[0]"
+				default:
+					x = "(strlen(str(" + x + ")) + 1)"
+				}
+			}
+			return x
+		}
+		ctx := rapid.IntRange(0, 4).Draw(rt, "context")
+		flag := rapid.Bool().Draw(rt, "variant")
+		grouped := rapid.Bool().Draw(rt, "grouped")
+		var build func(faulty bool) string
+		var fault string
+		switch family {
+		case 0:
+			fault = "fault-in-later-subscript"
+			bad := pick("badSubscript", "key ^= 1", "1 + 'a'", "!1", "key in ('a', 1)", "nosuchfn(1)", "upper()", "1 between 'a' and 2", "strlen(key) & 1")
+			depth := rapid.IntRange(2, 4).Draw(rt, "depth")
+			at := rapid.IntRange(2, depth).Draw(rt, "faultAt")
+			subs := make([]string, depth+1)
+			for d := 1; d <= depth; d++ {
+				subs[d] = pick("goodSubscript", "'a'", "'b'", "0", "1")
+			}
+			subs[1] = pick("firstSubscript", "'a'", "'b'") // a JSON object is addressed by member name
+			build = func(faulty bool) string {
+				e := "json(value)"
+				for d := 1; d <= depth; d++ {
+					if d == at && faulty {
+						e += "[" + bad + "]"
+					} else {
+						e += "[" + subs[d] + "]"
+					}
+				}
+				switch ctx {
+				case 0:
+					return "select key, " + e + " where key ^= 'a'"
+				case 1:
+					return "select key where " + e + " = 'x'"
+				case 2:
+					return "delete where upper(" + e + ") != 'X'"
+				}
+				return "select " + wrap(0, e) + " as x1, key where key ^= 'a' order by key"
+			}
+		case 1:
+			fault = "aggregate-inside-aggregate-argument"
+			outer := pick("outer", "sum(%s)", "count(%s)", "max(%s)", "min(%s)", "avg(%s)", "json_arrayagg(%s)", "group_concat(%s, ',')", "quantile(%s, 0.5)")
+			chain := rapid.IntRange(0, 2).Draw(rt, "chain")
+			alsoOutside := rapid.Bool().Draw(rt, "nameAlsoOutside")
+			build = func(faulty bool) string {
+				inner := aggr
+				if !faulty {
+					inner = "strlen(key)"
+				}
+				var q string
+				if flag {
+					// through names; the fault-free form keeps the names but
+					// groups by them (a plain field beside an aggregate)
+					fields := []string{inner + " as c0"}
+					names := []string{"c0"}
+					for i := 1; i <= chain; i++ {
+						nm := fmt.Sprintf("c%d", i)
+						fields = append(fields, wrap(0, names[i-1])+" as "+nm)
+						names = append(names, nm)
+					}
+					last := fmt.Sprintf(outer, wrap(1, names[len(names)-1]))
+					if alsoOutside {
+						// the same name once outside the aggregate, in front of it
+						last = "str(" + wrap(2, names[len(names)-1]) + ") + str(" + last + ")"
+					}
+					fields = append(fields, last)
+					q = "select " + strings.Join(fields, ", ") + " where key ^= 'a'"
+					if !faulty {
+						return q + " group by " + strings.Join(names, ", ")
+					}
+					if grouped {
+						q = strings.Replace(q, "select ", "select key, ", 1) + " group by key"
+					}
+					return q
+				}
+				q = "select " + wrap(0, fmt.Sprintf(outer, wrap(1, inner))) + " where key ^= 'a'"
+				if grouped {
+					q = strings.Replace(q, "select ", "select key, ", 1) + " group by key"
+				}
+				return q
+			}
+		case 2:
+			fault = "aggregate-reached-through-group-by"
+			build = func(faulty bool) string {
+				def := wrap(0, aggr)
+				if !faulty {
+					def = wrap(0, "strlen(key)")
+				}
+				switch ctx % 3 {
+				case 0:
+					return "select " + def + " as c, count(1) where key ^= 'a' group by c"
+				case 1:
+					return "select " + def + " as c, " + wrap(1, "c") + " as d, count(1) where key ^= 'a' group by c, d"
+				}
+				return "select " + def + ", key, count(1) where key ^= 'a' group by key, " + def
+			}
+		case 3:
+			fault = "aggregate-outside-select-fields"
+			build = func(faulty bool) string {
+				a := wrap(0, aggr)
+				if !faulty {
+					a = wrap(0, "strlen('abc')")
+				}
+				switch ctx {
+				case 0:
+					return "select * where str(" + a + ") != 'q' & key ^= 'a'"
+				case 1:
+					return "delete where key ^= 'a' & !(str(" + a + ") = 'q')"
+				case 2:
+					return "put ('k9', " + a + ")"
+				case 3:
+					return "remove 'k9', " + a
+				}
+				if !faulty {
+					return "select strlen(key) as c, key where str(" + wrap(1, "c") + ") != 'q'"
+				}
+				return "select " + aggr + " as c, key where str(" + wrap(1, "c") + ") != 'q' group by key"
+			}
+		case 4:
+			fault = "subscript-behind-list-element"
+			l := pick("list", "int_list(1, 2)", "split('akb', 'k')", "list('a', 'b')", "float_list(1.5, 2.5)", "split('1,2', ',')", "list('k', 'v')")
+			i1, j1 := pick("i", "0", "1"), pick("j", "0", "'x'", "1")
+			build = func(faulty bool) string {
+				e := l + "[" + i1 + "]"
+				if faulty {
+					e += "[" + j1 + "]"
+				}
+				switch ctx % 3 {
+				case 0:
+					return "select " + wrap(0, e) + " where key ^= 'a'"
+				case 1:
+					return "select key where " + e + " = 'x'"
+				}
+				return "put ('k9', " + e + ")"
+			}
+		default:
+			fault = "untyped-field-beside-aggregate"
+			v := pick("value", "split(value, ',')", "json(value)", "list(1, 2)", "int_list(strlen(key))", "json('{}')")
+			build = func(faulty bool) string {
+				x := v
+				if !faulty {
+					x = "upper(value)"
+				}
+				if flag {
+					return "select " + x + " as l0, l0 as l, key, " + aggr + " where key ^= 'a' group by key, key, key"
+				}
+				return "select " + x + " as l, " + aggr + " where key ^= 'a' group by key"
+			}
+		}
+		q, control := build(true), build(false)
+		c := &c14Case{Raw: q, Mutant: true, Fault: fault, Pairs: pairs}
+		lib.Journal("C14", "c14", c)
+		msg, _, labels := checkC14(c)
+		labels = append(labels, "form="+fault)
+		// the control: the same text without the fault is accepted
+		if cb := lib.Build(control, lib.NewInstr(lib.NewStore(pairs)), lib.Cfg{Mode: "row", Batch: 32, Cache: true}); cb.BuildErr != nil {
+			labels = append(labels, "form-control-refused")
+			if os.Getenv("VERIF_C14_CONTROLS") != "" {
+				fmt.Printf("CONTROL REFUSED: %q (%v) for %q\n", control, cb.BuildErr, q)
+			}
+		} else {
+			labels = append(labels, "form-control-accepted")
+		}
+		// (a form whose control is refused counts as trivial: its refusal proves nothing)
+		lib.Stats.Case(labels[len(labels)-1] == "form-control-accepted", "form|"+q, labels, func() any {
+			return map[string]any{"mutant": q, "fault": fault, "accepted_without_the_fault": control}
+		})
+		if msg != "" {
+			fail(rt, "C14", "c14", msg, c)
+		}
+	})
+}
+
 // TestC14Positions: every fault of the catalogue at every position of a set
 // of fixed skeleton statements (deterministic; guarantees that each
 // fault x position cell is exercised).
